@@ -21,6 +21,7 @@ type Ev struct {
 	Ret    int64
 	Thread int    // -1 = sequential prefix/suffix
 	Parent string // for pseudo-ops: the call they were decomposed from
+	Nows   []int64 // ticking-clock mode: the instants the call read (liveness by the first, stamping by the last)
 }
 
 const Pending = math.MaxInt64
@@ -134,18 +135,28 @@ func (s *searcher) dfs(st *model.M, mask uint64, depth int) bool {
 		if e.Inv > minRet {
 			break // sorted by Inv: nothing later can be minimal
 		}
-		c := st.Clone()
-		if err := c.Step(&e.Op, e.Res); err != nil {
-			if depth >= s.best {
-				errs = append(errs, fmt.Sprintf("#%d %s: %v", i, e.Op.String(), err))
+		// an entry that "may or may not have been cleaned up" is resolved both ways for the call that meets it
+		variants := []*model.M{st.Clone()}
+		if k := e.Op.Key; e.Op.K.Keyed() && k >= 0 && k < len(st.Ents) && st.Ents[k].Phys == model.Maybe {
+			variants[0].Ents[k].Phys = model.Present
+			gone := st.Clone()
+			gone.Ents[k] = model.Ent{}
+			variants = append(variants, gone)
+		}
+		for _, c := range variants {
+			c.At(e.Nows)
+			if err := c.Step(&e.Op, e.Res); err != nil {
+				if depth >= s.best {
+					errs = append(errs, fmt.Sprintf("#%d %s: %v", i, e.Op.String(), err))
+				}
+				continue
 			}
-			continue
+			s.order = append(s.order, i)
+			if s.dfs(c, mask|1<<uint(i), depth+1) {
+				return true
+			}
+			s.order = s.order[:len(s.order)-1]
 		}
-		s.order = append(s.order, i)
-		if s.dfs(c, mask|1<<uint(i), depth+1) {
-			return true
-		}
-		s.order = s.order[:len(s.order)-1]
 	}
 	if depth > s.best {
 		s.best = depth
